@@ -92,6 +92,15 @@ def run(ctx, p):
     worst = float(max(r1[m].max(), r2[m].max(), r3[m].max()))
     ctx.observe("r2d.consistent", name, worst <= 1e-9, branch="%s %s" % (morph, ang0), measure=worst, tol=1e-9,
                 detail=dict(det, worst_speed=float(r1[m].max()), worst_mach=float(r2[m].max()), worst_sie=float(r3[m].max())))
+    # ---- the same rays in a scrambled order: the state of a ray does not depend on the order of the request ------------------------
+    perm = np.random.default_rng(73).permutation(len(phis))
+    G = fields_at(ctx, s, phis[perm])
+    inv = np.argsort(perm)
+    dsc = 0.0
+    for f in ("pressure", "density", "Mach", "x_velocity", "y_velocity"):
+        a_, b_ = F[f], G[f][inv]
+        dsc = max(dsc, float(np.max(np.abs(a_ - b_) / np.maximum(np.abs(a_), 1e-300))))
+    ctx.observe("r2d.consistent", name, dsc <= 1e-9, branch="scan in scrambled order = ascending scan %s" % morph, measure=dsc, tol=1e-9, detail=det)
     # ---- slip line ---------------------------------------------------------------------------------------------------
     lo, hi = one(ctx, s, cd - 1e-6), one(ctx, s, cd + 1e-6)
     dp = abs(lo["pressure"] - hi["pressure"]) / max(lo["pressure"], hi["pressure"])
